@@ -128,6 +128,7 @@ func main() {
 	add("matrix", matrixSets)
 	add("small", smallSets)
 	add("oneofs", oneofSets)
+	add("optional", optionalSets)
 	add("maps", mapSets)
 	add("nest", nestSets)
 	add("xpkg", xpkgSets)
